@@ -462,6 +462,20 @@ func (fx *Facts) replyAct(c ssa.CallInstruction) string {
 		if strings.HasSuffix(p, ".ErrorFunc") {
 			return "ErrorFunc"
 		}
+		// the callback handed down to a helper: a parameter that receives the ErrorFunc field at every call site
+		if prm, isP := com.Value.(*ssa.Parameter); isP {
+			if args := fx.argsOf[prm]; len(args) > 0 {
+				all := true
+				for _, a := range args {
+					if !strings.HasSuffix(fx.path(a), ".ErrorFunc") {
+						all = false
+					}
+				}
+				if all {
+					return "ErrorFunc"
+				}
+			}
+		}
 	}
 	return ""
 }
